@@ -64,6 +64,11 @@ class C01(Property):
                 out.viol("pull_failed_in_update", f"{f['comp']}.{f['input']} pull at {f['t']}h failed during its update: {f['exc']}: {f['msg']}", spec=spec, witness=f)
         for lk in rep.lacking_at_update:
             out.viol("updated_before_data_exists", f"update of {lk['comp']} (announced pull {lk['next']}h) while sources lag: {lk['lacking']}; component times {lk['times']}", spec=spec, witness=lk)
+        for lk in rep.lacking_by_push_log:
+            if not any(x["comp"] == lk["comp"] and x["next"] == lk["next"] for x in rep.lacking_at_update):
+                out.viol("updated_before_data_published", f"update of {lk['comp']} (announced pull {lk['next']}h): {lk['source']} must have published up to {lk['needs']}h, "
+                         f"the recorder saw publications only up to {lk['newest_publication_seen']}h (Output.time says {lk['output_time_attr']}h)", spec=spec, witness=lk)
+        out.count("publication_log_checks", len(rep.updates))
         if rep.outcome != "ok":
             if rep.outcome in ("FinamTimeError", "FinamNoDataError") and rep.phase == "run" and not rep.pull_failures:
                 out.viol("time_error_in_run", f"run() ended with {rep.outcome}: {rep.message}", spec=spec, trace=rep.trace)
